@@ -72,6 +72,7 @@ namespace Givaro {
                                                const Rep & p) const {
 //         std::cerr << "p:= " << p << ';' << std::endl;
 //         std::cerr << "a:= " << a << ';' << std::endl;
+        if (&x == &p) { const Rep pp(p); return sqrootmodprime(x, a, pp); } // in place: p is read after x is written
         Rep amp (a); Integer::modin(amp,p);
         if (amp == 0U || amp == 1) return x = amp;
 
@@ -174,6 +175,9 @@ namespace Givaro {
                                                     const uint64_t k,
                                                     const Rep & pk) const{
 
+        if (&x == &a || &x == &p || &x == &pk) { // in place: a, p and pk are read after x is written
+            const Rep aa(a), pp(p), ppk(pk); return sqrootmodprimepower(x, aa, pp, k, ppk);
+        }
         Rep tmpa(a); Integer::modin(tmpa,pk);
         if(tmpa==0) return x=0;
         if(tmpa==1) return x=1;
@@ -235,6 +239,7 @@ namespace Givaro {
                                                     const Rep & a,
                                                     const uint64_t k,
                                                     const Rep & pk) const {
+        if (&x == &pk) { const Rep ppk(pk); return sqrootmodpoweroftwo(x, a, k, ppk); } // in place: pk is read after x is written
         Rep tmpa (a); Integer::modin(tmpa,pk);
         x = 0;
             //first cases k = 1,2,3
@@ -487,6 +492,7 @@ namespace Givaro {
     IntSqrtModDom<MyRandIter>::sumofsquaresmodprimeDeterministic
     (Rep& a, Rep& b, const Rep& k, const Rep& p) const {
         GIVARO_REQUIRE(this->isprime(p),"isprime");
+        if (&a == &p || &b == &p) { const Rep pp(p); return sumofsquaresmodprimeDeterministic(a, b, k, pp); } // in place: p is read after a, b are written
 
         Integer r(k);
         Integer::modin(r,p);
@@ -523,6 +529,7 @@ namespace Givaro {
     IntSqrtModDom<MyRandIter>::sumofsquaresmodprimeMonteCarlo
     (Rep& a, Rep& b, const Rep& k, const Rep& p) const {
         GIVARO_REQUIRE(this->isprime(p),"isprime");
+        if (&a == &p || &b == &p) { const Rep pp(p); return sumofsquaresmodprimeMonteCarlo(a, b, k, pp); } // in place: p is read after a, b are written
 
         Integer r(k);
         Integer::modin(r,p);
@@ -560,6 +567,9 @@ namespace Givaro {
     IntSqrtModDom<MyRandIter>::sumofsquaresmodprimewithnonresidue
     (Rep& a, Rep& b, const Rep& k, const Rep& s, const Rep& p) const {
         GIVARO_REQUIRE(this->isprime(p),"isprime");
+        if (&a == &p || &b == &p || &a == &s || &b == &s || &b == &k) { // in place: k, s, p are read after a, b are written
+            const Rep kk(k), ss(s), pp(p); return sumofsquaresmodprimewithnonresidue(a, b, kk, ss, pp);
+        }
         GIVARO_REQUIRE(legendre(s,p) == -1, "non-residue");
         GIVARO_REQUIRE(legendre(s-1,p) == 1, "quadratic residue");
 
@@ -584,6 +594,7 @@ namespace Givaro {
     IntSqrtModDom<MyRandIter>::sumofsquaresmodprimeNoERH
     (Rep& a, Rep& b, const Rep& k, const Rep& p) const {
         GIVARO_REQUIRE(this->isprime(p),"isprime");
+        if (&a == &p || &b == &p) { const Rep pp(p); return sumofsquaresmodprimeNoERH(a, b, k, pp); } // in place: p is read after a, b are written
 
         Integer r(k);
         Integer::modin(r,p);
